@@ -12,13 +12,94 @@ def observe_chunk(d):
     return v, consumed, details
 
 
+def S(l):
+    return [{"a": x.split()[0], "r": (x.split() + [""])[1]} for x in l]
+
+
+# schedules TLC finds with the code before the fix of F-06d / F-06e and with the seeded defect C06-d (MC_C06_cache_old.cfg,
+# MC_C06_cache_restat.cfg): kept as fixed scenarios, the rest comes from simulation of the current model
+CACHE_LEADS = [
+    ("lead-stale", ["check q1", "load q1", "append", "check q2", "load q2", "store q2", "check q2", "store q1", "hit q2"]),
+    ("lead-panic", ["check q1", "load q1", "store q1", "check q2", "uwrite", "uinval", "hit q2"]),
+    ("lead-restat", ["check q1", "load q1", "append", "store q1", "check q2", "hit q2"]),
+    ("lead-restat-update", ["check q1", "load q1", "uwrite", "uinval", "store q1", "check q2", "hit q2"]),
+]
+
+
+def cache_stage(rep, work, vh, tier, seed, replay_sc=None):
+    """The status cache under overlapping queries and writes: FileCache.tla checked exhaustively, its behaviours replayed
+    through the gates of the real filecache + jsondb, every gate passage validated by FileCacheTrace.tla."""
+    q = tier == "quick"
+    states, transitions, runs = rc.model_check(work, "FileCache", ["MC_C06_cache_quick.cfg"] if q else ["MC_C06_cache_quick.cfg", "MC_C06_cache.cfg"])
+    scs = []
+    if replay_sc:
+        scs = [replay_sc]
+    else:
+        for k, (name, steps) in enumerate(CACHE_LEADS):
+            for qk in ["recent", "today"]:
+                scs.append({"scen": 700000 + 2 * k + (qk == "today"), "src": name, "query": qk, "steps": S(steps),
+                            "recording": not any(x.startswith("u") for x in steps)})
+        d = os.path.join(work, "csim")
+        os.makedirs(d)
+        r = vp.tlc(d, "MCFileCache", "MC_C06_cache_sim.cfg", workers=1, timeout=900,
+                   simulate="num=%d" % (500 if q else 8000), extra=["-depth", "60", "-seed", str(seed)])
+        seen = set()
+        for obj in vp.parse_prints(r["out"], "BEHAVIOUR"):
+            key = json.dumps(obj["steps"])
+            if key in seen:
+                continue
+            seen.add(key)
+            scs.append({"scen": 710000 + len(scs), "src": "model", "query": ["recent", "today"][len(scs) % 2], "steps": obj["steps"],
+                        "recording": obj["recording"]})
+        shutil.rmtree(d, ignore_errors=True)
+    scen_path = os.path.join(work, "cache.jsonl")
+    with open(scen_path, "w") as f:
+        for s in scs:
+            f.write(json.dumps(s) + "\n")
+    trace = os.path.join(work, "cache.ndjson")
+    rc.run_vh(vh, ["cache", "-scenarios", scen_path, "-out", trace])
+    chunks = sc.split_trace(trace, vp.NCPU, os.path.join(work, "cobs"))
+    by_id = {s["scen"]: s for s in scs}
+    events = finished = 0
+    def obs(d):
+        v, consumed, r = vp.observe(d, "FileCacheTrace", os.path.join(d, "trace.ndjson"))
+        return v, consumed
+    with cf.ThreadPoolExecutor(max_workers=vp.NCPU) as ex:
+        for verdicts, consumed in ex.map(obs, chunks):
+            events += consumed
+            for v in verdicts:
+                s = by_id.get(v["scen"], {})
+                if "INFRA" in v["viol"]:
+                    raise Infra("cache rig: %s" % json.dumps(v["rec"]))
+                for c in v["viol"]:
+                    if c.startswith("DRIFT"):
+                        rep.drift.append("%s scen=%s line=%s rec=%s" % (c, v["scen"], v["line"], json.dumps(v["rec"], sort_keys=True)))
+                    else:
+                        rep.violation({"clause": c, "stage": "cache", "src": s.get("src")},
+                                      {"cache_scenario": s, "first_mismatch": v["rec"]})
+    for line in open(trace):
+        if '"a":"store"' in line or '"a":"hit"' in line or '"ev":"Quiet"' in line:
+            finished += 1
+    return {"states": states, "transitions": transitions, "runs": runs, "scenarios": len(scs), "events": events, "queries": finished,
+            "sample": scs[-1] if scs else None}
+
+
 def run(prop, tier, seed, replay=None):
     rep = vp.Report(prop, tier, seed, "model_checking")
     vh = vp.build_harness()
     work = vp.scratch(prop)
     try:
         q = tier == "quick"
+        cache_replay = None
+        if replay:
+            cache_replay = json.load(open(replay))["replay"].get("cache_scenario")
+        if cache_replay:
+            c = cache_stage(rep, work, vh, tier, seed, cache_replay)
+            rep.cov.update({"states": c["states"], "transitions": c["transitions"], "model_checking_runs": c["runs"],
+                            "traces_validated_against_impl": c["scenarios"], "trace_events": c["events"], "exhaustive": False})
+            return rep.finish()
         states, transitions, runs = rc.model_check(work, "MCHistory", ["MC_C06.cfg"])
+        cstage = None if replay else cache_stage(rep, work, vh, tier, seed)
         scen_path = os.path.join(work, "scen.jsonl")
         scenarios = []
         if replay:
@@ -89,8 +170,20 @@ def run(prop, tier, seed, replay=None):
                 rep.violation({"clause": c, "names": v["names"], "sameSecond": dt.get("sameSecond")},
                               {"scenario": s, "first_mismatch": {"line": dt.get("line"), "op": {k: x for k, x in (dt.get("op") or {}).items() if k != "ans"}}})
         samples = [by_id[k] for k in list(by_id)[:2]] + [by_id[k] for k in list(by_id)[-1:]]
+        if cstage:
+            states += cstage["states"]
+            transitions += cstage["transitions"]
+            runs += cstage["runs"]
+            events += cstage["events"]
+            rep.cov["cache_stage"] = {"schedules_replayed": cstage["scenarios"], "gate_events_validated": cstage["events"], "queries_judged": cstage["queries"],
+                                      "rule": "FileCache.tla (3 concurrent queries at the grain check / parse / store / hit, appends by the recording process, manual update = "
+                                              "write then invalidate) checked exhaustively; its simulated behaviours and the counter-examples of the pre-fix model and of the "
+                                              "restat seed are replayed through the verif gates of the real filecache under a real jsondb (ReadStatusRecent / ReadStatusToday, "
+                                              "Write of a second JSONDB, Update); every gate passage is matched with the specification's action by FileCacheTrace.tla and "
+                                              "every returned status is compared with the version the file held when the query looked at it",
+                                      "sample": cstage["sample"]}
         rep.cov.update({"states": states, "transitions": transitions, "model_checking_runs": runs,
-                        "traces_validated_against_impl": len(verdicts), "operations_executed": nops, "trace_events": events,
+                        "traces_validated_against_impl": len(verdicts) + (cstage["scenarios"] if cstage else 0), "operations_executed": nops, "trace_events": events,
                         "model_behaviours_replayed": len(scenarios),
                         "evaluations": len(verdicts), "distinct_nontrivial": len({json.dumps(s.get("ops"), sort_keys=True) + s.get("names", "") for s in by_id.values() if len(s.get("ops", [])) >= 5}),
                         "rule": "operation sequences (open/write/close, update, rename, remove-old, remove-all, ageing) over 3 DAG identities mapped to 8 name tables "
@@ -100,7 +193,9 @@ def run(prop, tier, seed, replay=None):
                         "samples": samples, "exhaustive": False})
         rep.assumptions += ["TZ=UTC; 'today' is the real current date (a run during which the date changes is INFRA)",
                             "two runs never share the same millisecond start stamp; rename/retention are not issued on a DAG whose writer is open (the system refuses edits while running)",
-                            "while the newest run has no status yet, the answer of the latest query is not constrained"]
+                            "while the newest run has no status yet, the answer of the latest query is not constrained",
+                            "cache stage: the file grows with every recorded status (append-only), so size+mtime change with every write; the interleavings are those "
+                            "at the three gates of the verif build (after the staleness check, after the parse, before the invalidation)"]
         return rep.finish()
     finally:
         shutil.rmtree(work, ignore_errors=True)
